@@ -273,3 +273,75 @@ Proof. apply bal_tok. apply (bal_sub [ETok 2] [2] [ETok 3] [3]); repeat construc
 
 Example ex_all_ok : all_ok (init 0) (events_of_top (Sub [Tok 1; Sub [RaiseV]]) ++ events_of_top (Sub [Tok 5])) = true.
 Proof. vm_compute. reflexivity. Qed.
+
+(* ---- OPEN numbers: the sender writes consecutive numbers into its OPENs ... *)
+Lemma next_open_app c a b : next_open c (a ++ b) = match next_open c a with Some c' => next_open c' b | None => None end.
+Proof.
+  revert c. induction a as [|t a IH]; intros c; [reflexivity|]. destruct t; cbn [app next_open]; try apply IH.
+  destruct (n =? c); [apply IH|reflexivity].
+Qed.
+
+Lemma next_open_unwind c st : next_open c (unwind_all st) = Some c.
+Proof. induction st as [|a st IH]; [reflexivity|]. cbn [unwind_all flat_map app next_open] in *. exact IH. Qed.
+
+Lemma violation_opens c0 f1 f2 s : next_open c0 (out s) = Some (cnt s) ->
+  next_open c0 (out (violation f1 f2 s)) = Some (cnt (violation f1 f2 s)).
+Proof.
+  intros H. unfold violation. destruct (stack s) as [|id r]; cbn [out cnt]; [exact H|].
+  rewrite next_open_app, H, next_open_app.
+  assert (E : next_open (cnt s) ((if f2 then [TAbort id] else []) ++ (if f1 then [TClose id] else [])) = Some (cnt s))
+    by (destruct f1, f2; reflexivity).
+  rewrite E. apply next_open_unwind.
+Qed.
+
+Lemma step_opens c0 s e : next_open c0 (out s) = Some (cnt s) -> next_open c0 (out (step s e)) = Some (cnt (step s e)).
+Proof.
+  intros H. unfold step. destruct (up s); cbn [negb]; [|exact H].
+  destruct e.
+  - destruct (stack s); cbn [out cnt]; rewrite next_open_app, H; reflexivity.
+  - cbn [out cnt]. rewrite next_open_app, H. cbn [next_open]. rewrite Z.eqb_refl. reflexivity.
+  - apply violation_opens. exact H.
+  - destruct (stack s) as [|a [|b l]]; cbn [out cnt]; [exact H| |]; rewrite next_open_app, H; reflexivity.
+  - destruct (stack s); [exact H|]. apply violation_opens. exact H.
+  - exact H.
+Qed.
+
+Lemma run_opens c0 evs : forall s, next_open c0 (out s) = Some (cnt s) -> next_open c0 (out (run s evs)) = Some (cnt (run s evs)).
+Proof.
+  induction evs as [|e evs IH]; intros s H; [exact H|]. cbn [run fold_left]. fold (run (step s e) evs).
+  apply IH. apply step_opens. exact H.
+Qed.
+
+(* ... and a receiver that counts EVERY OPEN -- also the ones it is discarding, whatever made it discard -- gives each
+   OPEN exactly that number *)
+Lemma crun_numbered ts : forall c flags n, next_open (ccount c) ts = Some n -> List.length flags = List.length ts ->
+  cagree c = true -> cagree (crun c (combine ts flags)) = true /\ ccount (crun c (combine ts flags)) = n.
+Proof.
+  induction ts as [|t ts IH]; intros c flags n H L A.
+  - destruct flags; [|discriminate]. cbn in *. inversion H. auto.
+  - destruct flags as [|v flags]; [discriminate|]. cbn [List.length] in L. injection L as L.
+    cbn [combine crun fold_left]. fold (crun (cstep c (t, v)) (combine ts flags)).
+    destruct t; cbn [next_open] in H.
+    + destruct (n0 =? ccount c) eqn:E; [|discriminate]. apply IH; [|exact L|].
+      * unfold cstep, recv_counts_rejected_opens. rewrite orb_true_r. cbn [ccount]. exact H.
+      * unfold cstep. cbn [cagree]. rewrite A, E. reflexivity.
+    + apply IH; [exact H|exact L|exact A].
+    + apply IH; [exact H|exact L|exact A].
+    + apply IH; [exact H|exact L|exact A].
+Qed.
+
+Theorem open_numbers_in_step c evs flags :
+  let s := run (init c) evs in
+  List.length flags = List.length (out s) ->
+  let r := crun (cinit c) (combine (out s) flags) in
+  cagree r = true /\ ccount r = cnt s.
+Proof.
+  intros s L. apply crun_numbered; [|exact L|reflexivity].
+  cbn [cinit ccount]. apply (run_opens c evs (init c)). reflexivity.
+Qed.
+
+Example ex_discarded_opens_counted :     (* the receiver rejects at the 3rd token; 2 more OPENs follow in the discarded part *)
+  let s := run (init 0) (events_of_top (Sub [Tok 1; Sub [Tok 2; Sub [Tok 3]]]) ++ events_of_top (Sub [Sub [Tok 4]])) in
+  let r := crun (cinit 0) (combine (out s) [false; false; true; false; false; false; false; false; false; false; false; false; false; false]) in
+  (List.length (out s), ccount r, cnt s, cagree r) = (14%nat, 5, 5, true).
+Proof. vm_compute. reflexivity. Qed.
